@@ -1,7 +1,8 @@
 (* Extraction of the executable model to OCaml.  Only ExtrOcamlBasic is used: bool, option, unit, list, prod,
    sumbool, sumor map to OCaml's; nat, positive, N, Z stay the extracted Coq datatypes. *)
 From Coq Require Import Extraction ExtrOcamlBasic.
-From DSG Require Import Base Constraint.
+From DSG Require Import Base Constraint DesVar.
 Extraction "dsgm_model.ml" Base.memN Base.memZ
   Constraint.valid_row Constraint.valid_idx_rows Constraint.idx_okb Constraint.removed_options
-  Constraint.pre_removed Constraint.count_max.
+  Constraint.pre_removed Constraint.count_max
+  DesVar.correct DesVar.in_dom DesVar.set_value DesVar.canon DesVar.truncQ.
